@@ -2448,11 +2448,17 @@ impl<'a> CodeGenerator<'a> {
                                 return acc;
                             }
 
-                            let index = if let Some(tag) =
-                                constr.decorators.iter().find_map(|d| match &d.kind {
+                            // The tag may also sit on the type itself (a record written
+                            // without an explicit constructor), as when constructing a value.
+                            let index = if let Some(tag) = constr
+                                .decorators
+                                .iter()
+                                .chain(data_type.decorators.iter())
+                                .find_map(|d| match &d.kind {
                                     DecoratorKind::Tag { value, .. } => Some(value),
                                     _ => None,
-                                }) {
+                                })
+                            {
                                 *tag
                             } else {
                                 index
